@@ -800,6 +800,26 @@ def matrix2_cases(g):
             b["conds"].append(g.msg_cond("RECEIVE_MESSAGE", mode if ok else mode ^ 1, msg, b, a)); b["tags"].append(("RECEIVE_MESSAGE", "mode"))
             n += 1
             emit([a, b], [("SEND_MESSAGE", "mode:%d:%d" % (mode, ok))], n & 1, 0x10000 | (0x800000 if n & 2 else 0))
+    # many identical messages for one key: the balance must be exact whatever the order (127 / 128 / 129 / 300 in a row)
+    for cnt in (127, 128, 129, 300):
+        for order in (0, 1):
+            a, b = g.new_spend(parent=r.bytes(32), amount=1000), g.new_spend(parent=r.bytes(32), amount=2001)
+            a["budget"] = []; b["budget"] = []
+            mode = 0b010010
+            for _ in range(cnt):
+                a["conds"].append(g.msg_cond("SEND_MESSAGE", mode, b"rep", a, b)); a["tags"].append(("SEND_MESSAGE", "many"))
+                b["conds"].append(g.msg_cond("RECEIVE_MESSAGE", mode, b"rep", b, a)); b["tags"].append(("RECEIVE_MESSAGE", "many"))
+            n += 1
+            emit([a, b] if order == 0 else [b, a], [("SEND_MESSAGE", "count:%d:%d" % (cnt, order))], n & 1, 0x10000)
+        # one receive short / one too many
+        a, b = g.new_spend(parent=r.bytes(32), amount=1000), g.new_spend(parent=r.bytes(32), amount=2001)
+        a["budget"] = []; b["budget"] = []
+        for i in range(cnt):
+            a["conds"].append(g.msg_cond("SEND_MESSAGE", 0b010010, b"rep", a, b)); a["tags"].append(("SEND_MESSAGE", "many"))
+            if i > 0:
+                b["conds"].append(g.msg_cond("RECEIVE_MESSAGE", 0b010010, b"rep", b, a)); b["tags"].append(("RECEIVE_MESSAGE", "many"))
+        n += 1
+        emit([a, b], [("SEND_MESSAGE", "count-short:%d" % cnt)], n & 1, 0x10000)
     return out
 
 
